@@ -339,6 +339,9 @@ func propertyFailsL(prop, op, res, lean string) (why string) {
 			}
 		}
 	case "C07":
+		if hasPrefix(res, "panic") && (base == "udec" || base == "dec" || base == "cdec") {
+			return "decoder panicked (a header for which no packet value is allocated?)"
+		}
 		if base == "dec" && isOK && kind != "RAW" && kind != "COMPOUND" {
 			b := NewR(args).H()
 			if u := dispatchKind(b); u != "" && u != "RAW" && u != kind && framesOK(b) && countFrames(b) == 1 {
